@@ -10,7 +10,7 @@ use crate::proc::{run_blots, scratch_file};
 use indexmap::IndexMap;
 use serde_json::{Value as J, json};
 
-const ALPHABET: [&str; 11] = [
+const ALPHABET: [&str; 12] = [
     "a = 1",
     "output b = 2",
     "output a",
@@ -22,6 +22,7 @@ const ALPHABET: [&str; 11] = [
     "output d = inputs.k",
     "output g = [#k, inputs.k, #missing, inputs.missing]",
     "output v = [#value_1, inputs.value_2, #j]",
+    "output whole = inputs",
 ];
 
 #[derive(Clone, Debug)]
@@ -48,6 +49,9 @@ fn input_sets() -> Vec<InputSet> {
         i("bad-flag", None, &["{\"k\": 1}", "not json"]),
         i("bad-stdin", Some("{oops"), &[]),
         i("null-value", None, &["{\"k\": null}"]),
+        i("null-overrides-value", None, &["{\"k\": 5, \"j\": 1}", "{\"k\": null}"]),
+        i("null-overrides-stdin", Some("{\"k\": \"s\"}"), &["{\"k\": null, \"j\": null}"]),
+        i("false-zero-empty-override", None, &["{\"k\": 5, \"j\": 5}", "{\"k\": false, \"j\": 0}", "{\"k\": \"\"}"]),
         // explicit value_n keys meeting the automatic numbering of non-object inputs
         i("stdin-value-key-then-scalar", Some("{\"value_1\": \"piped\", \"k\": 1}"), &["7"]),
         i("stdin-value2-key-then-two-scalars", Some("{\"value_2\": \"piped\", \"j\": 0}"), &["7", "8"]),
@@ -151,6 +155,14 @@ fn model_run(script: &[usize], inputs: &IndexMap<String, J>) -> ModelResult {
                 let v = json!([inp("k"), inp("k"), J::Null, J::Null]);
                 env.insert("g".into(), v.clone());
                 outputs.insert("g".into(), v);
+            }
+            "output whole = inputs" => {
+                if env.contains_key("whole") {
+                    return fail(outputs);
+                }
+                let v = J::Object(inputs.iter().map(|(k, v)| (k.clone(), v.clone())).collect());
+                env.insert("whole".into(), v.clone());
+                outputs.insert("whole".into(), v);
             }
             "output v = [#value_1, inputs.value_2, #j]" => {
                 if env.contains_key("v") {
@@ -330,8 +342,11 @@ pub fn run(ctx: &Ctx, replay: Option<&J>) -> i32 {
                 }
                 // every script in file mode with every input set; other modes for scripts of length <= 2
                 // (quick) / <= 3 (thorough) and for a rotating subset of the longer ones
+                // scripts up to length 2 (quick) / 3 (thorough): every input set in every mode;
+                // the longest scripts: file mode with a rotating third of the input sets, plus a
+                // rotating seventh in the other modes
                 let short = s.len() <= ctx.tier.pick(2, 3);
-                if m == Mode::File || short || (si + ii) % 7 == 0 {
+                if short || (m == Mode::File && (si + ii) % 3 == 0) || (si + ii) % 7 == 0 {
                     jobs.push((si, ii, m));
                 }
             }
@@ -355,7 +370,7 @@ pub fn run(ctx: &Ctx, replay: Option<&J>) -> i32 {
     finish(
         ctx,
         "model_checking",
-        "model traces = every script of length <= 3/4 over an 11-statement alphabet (bind, output-with-binding, output of bound/unbound name, re-output, evaluation failure, non-portable function output, parse error, comment, #name / inputs.name reads, value_n reads) x 19 input sets (0..3 --input flags and/or stdin; objects with overlapping keys, arrays, scalars, explicit value_1 key, empty stdin, invalid JSON) x 4 invocation modes (file, inline, -e stdin, -o file); every trace is executed by the real binary and compared with the model (exit status biconditional, exactly one outputs object with the model's keys in declaration order and values, no object / no file on failure, diagnostics present); distinct = distinct (script, inputs, mode)",
+        "model traces = every script of length <= 3/4 over an 12-statement alphabet (bind, output-with-binding, output of bound/unbound name, re-output, evaluation failure, non-portable function output, parse error, comment, #name / inputs.name reads, value_n reads) x 22 input sets (0..3 --input flags and/or stdin; objects with overlapping keys, arrays, scalars, explicit value_1 key, empty stdin, invalid JSON) x 4 invocation modes (file, inline, -e stdin, -o file); every trace is executed by the real binary and compared with the model (exit status biconditional, exactly one outputs object with the model's keys in declaration order and values, no object / no file on failure, diagnostics present); distinct = distinct (script, inputs, mode)",
         true,
         Some((scripts.len() as u64 * sets.len() as u64, n, n)),
     )
